@@ -14,6 +14,17 @@ import (
 // Locker is sync.Locker.
 type Locker = sync.Locker
 
+// HoldPoints adds a scheduling point right after every successful acquisition, so that another thread can run
+// while the lock is held. It is switched on (at build time, see mc/rewrite) only for a library that uses TryLock /
+// TryRLock: without those nobody can observe a held lock except by blocking, which the acquisition points cover.
+var HoldPoints bool
+
+func held(label string) {
+	if HoldPoints {
+		sched.Point(label, nil)
+	}
+}
+
 // Mutex models sync.Mutex.
 type Mutex struct {
 	real   sync.Mutex
@@ -28,6 +39,7 @@ func (m *Mutex) Lock() {
 	}
 	sched.Point("Mutex.Lock", func() bool { return !m.locked })
 	m.locked = true
+	held("Mutex.held")
 }
 
 // TryLock tries to acquire m.
@@ -73,12 +85,14 @@ func (rw *RWMutex) Lock() {
 	sched.Point("RWMutex.Lock", func() bool { return !rw.writer })
 	if rw.readers == 0 {
 		rw.writer = true
+		held("RWMutex.held")
 		return
 	}
 	rw.writer = true // announced: excludes other writers and new readers
 	rw.writerPending++
 	sched.Point("RWMutex.Lock/drain", func() bool { return rw.readers == 0 })
 	rw.writerPending--
+	held("RWMutex.held")
 }
 
 // Unlock releases the write lock.
@@ -101,6 +115,7 @@ func (rw *RWMutex) RLock() {
 	}
 	sched.Point("RWMutex.RLock", func() bool { return !rw.writer })
 	rw.readers++
+	held("RWMutex.rheld")
 }
 
 // RUnlock releases a read lock.
